@@ -19,8 +19,8 @@
 #   roundtrip_all   same DUT, one action = one whole command (all 256 values x stall patterns), from reset and after every
 #               other command.
 #
-# Latencies are not fixed by the statement: a requested command must start within MAXSTART cycles, a report must
-# come 0..MAXLAT cycles after the command word.  Where the statement is silent the oracle admits both outcomes:
+# Latencies are not fixed by the statement: a requested command must start in the request cycle or within MAXSTART
+# cycles after it, `done` may lag the command word by MAXDONE cycles, a report must come 0..MAXLAT cycles after the command word.  Where the statement is silent the oracle admits both outcomes:
 #   * a command word with non-zero reserved bits (6:4) but matching CRC-5 may or may not be reported (fields must be right),
 #   * LCSTART directly followed by another LCSTART: the second one may be taken as (rejected) command word or as new framing.
 from rtlmc.model import Design, Violation
@@ -32,8 +32,9 @@ TECHNIQUE = ("explicit-state model checking of LinkCommandGenerator / LinkComman
              "exhaustive lookahead sweeps of all 2^16 command words and their corruptions; reference encoders from the USB 3.2 "
              "specification calibrated on the repository's recorded packets")
 
-MAXSTART = 3      # cycles a requested command may take before LCSTART is driven
-MAXLAT = 2        # cycles after the command word within which the detector must report
+MAXSTART = 4      # cycles after the request cycle a command may take before LCSTART is driven (it may also be driven in the request cycle)
+MAXDONE = 2       # cycles after the transfer of the command word within which `done` must be seen (normally the same cycle)
+MAXLAT = 4        # cycles after the command word within which the detector must report
 
 LC_DATA, LC_CTRL = ref.LCSTART
 
@@ -79,10 +80,11 @@ class GeneratorSpec(Spec):
 
     def assumptions(self):
         return ["a request is `generate` high in a cycle in which the generator is not busy (from the cycle after `done`, as "
-                "documented); `generate` pulses while busy are driven by the environment but do not count as requests",
+                "documented); `generate` pulses while busy are driven by the environment but do not count as requests; `done` is expected "
+                f"with the transfer of the command word or at most {MAXDONE} cycles later, and never otherwise",
                 f"a requested command must drive LCSTART within {MAXSTART} cycles; no bubble is allowed between LCSTART and the command word"]
 
-    # env = (phase, cs, wait): phase 0 idle, 1 LCSTART expected, 2 command word expected
+    # env = (phase, cs, wait): phase 0 idle, 1 LCSTART expected, 2 command word expected, 3 command sent / `done` still owed
     def env0(self):
         return (0, 0, 0)
 
@@ -95,13 +97,19 @@ class GeneratorSpec(Spec):
         gen, ready, cs = a
         phase, want, wait = env
         o = cur.step(command=cs >> 4, subtype=cs & 0xF, generate=gen, ready=ready)
+        if phase == 3:                  # command word transferred, `done` still owed
+            if o.valid: raise Violation("generator:word-without-request", dict(data=hex(o.data), ctrl=o.ctrl, phase="waiting for done"))
+            if o.done: return (0, 0, 0)
+            if wait + 1 > MAXDONE: raise Violation("generator:done-missing", dict(request=hex(want), waited=wait + 1))
+            return (3, want, wait + 1)
         if phase == 0:
-            if o.valid: raise Violation("generator:word-without-request", dict(data=hex(o.data), ctrl=o.ctrl))
-            if o.done: raise Violation("generator:done-mismatch", dict(phase="idle", done=1))
-            if gen:
-                self.cover["request"] += 1
-                return (1, cs, 0)
-            return env
+            if not gen:
+                if o.valid: raise Violation("generator:word-without-request", dict(data=hex(o.data), ctrl=o.ctrl))
+                if o.done: raise Violation("generator:done-mismatch", dict(phase="idle", done=1))
+                return env
+            self.cover["request"] += 1
+            phase, want, wait = 1, cs, -1          # the start word may already be driven in the request cycle
+            if o.valid: self.cover["start_word_in_request_cycle"] += 1
         if phase == 1:
             if o.done: raise Violation("generator:done-mismatch", dict(phase="header", done=1))
             if not o.valid:
@@ -117,14 +125,14 @@ class GeneratorSpec(Spec):
         if not o.valid: raise Violation("generator:bubble-in-command", dict(request=hex(want)))
         bad = check_command_word(o.data, o.ctrl, want >> 4, want & 0xF)
         if bad: raise Violation("generator:command-word:" + bad[0], dict(bad[1], data=hex(o.data), request=hex(want), inputs_now=hex(cs)))
-        if o.done != ready: raise Violation("generator:done-mismatch", dict(phase="command", ready=ready, done=o.done))
+        if o.done and not ready: raise Violation("generator:done-mismatch", dict(phase="command", ready=ready, done=o.done))
         if not ready:
             self.cover["stall_command"] += 1
             return (2, want, 0)
         self._seen.add(want)
         if len(self._seen) == 256: self.cover["all_256_commands_sent"] += 1
         self.outcomes.add(o.data)
-        return (0, 0, 0)
+        return (0, 0, 0) if o.done else (3, want, 0)
 
     def goals(self):
         return ["request", "stall_header", "stall_command", "all_256_commands_sent"]
@@ -190,19 +198,22 @@ class DetectorSpec(Spec):
                 "may be taken either as the (rejected) command word or as new framing"]
 
     # env = (candidate reference states: frozenset of 'W' (waiting for LCSTART) / 'P' (next valid word is the command word),
-    #        pending reports: tuple of (age, must, command, subtype))
+    #        pending reports: frozenset of alternative queues, each a tuple of (age, must, command, subtype))
     def env0(self):
-        return (frozenset("W"), ())
+        return (frozenset("W"), frozenset([()]))
 
     def actions(self, env):
         acts = list(self.alpha)
-        if env[0] == frozenset("P") and not env[1]: acts.append("sweep:" + self.sweep)
+        if env[0] == frozenset("P") and env[1] == frozenset([()]): acts.append("sweep:" + self.sweep)
         return acts
 
     def observe(self, o, cands, pending, word):
-        """one cycle of the reference: `word` = (valid, data, ctrl) presented in the cycle in which `o` was observed"""
+        """one cycle of the reference: `word` = (valid, data, ctrl) presented in the cycle in which `o` was observed.
+        pending = frozenset of alternative queues of outstanding reports, each a tuple of (age, must, command, subtype): which
+        optional report a strobe answers is not always decidable, so every consistent reading is kept."""
         kind = classify(*word)
         newc = set()
+        add = None
         if kind[0] == "gap":
             newc = set(cands)
         else:
@@ -214,27 +225,43 @@ class DetectorSpec(Spec):
                     else: newc.add("W")
             if "P" in cands and kind[0] in ("good", "may"):
                 must = kind[0] == "good" and cands == frozenset("P")
-                pending = pending + ((0, must, kind[1], kind[2]),)
+                add = (0, must, kind[1], kind[2])
                 self.cover["good_after_lcstart" if must else "optional_report"] += 1
             elif "P" in cands and kind[0] == "bad":
                 self.cover["bad_after_lcstart"] += 1
             elif kind[0] in ("good", "may"):
                 self.cover["good_without_lcstart"] += 1
+        if add: pending = frozenset(q + (add,) for q in pending)
         if o.new_command:
-            if not pending:
-                raise Violation("detector:spurious-report", dict(reported=dict(command=o.command, subtype=o.subtype), word=[word[0], hex(word[1]), word[2]]))
-            (age, must, cmd, sub), pending = pending[0], pending[1:]
-            if (o.command, o.subtype) != (cmd, sub) or o.command_class != cmd >> 2 or o.command_type != cmd & 3:
-                raise Violation("detector:wrong-fields", dict(expected=dict(command=cmd, subtype=sub),
-                                                              got=dict(command=o.command, subtype=o.subtype, cls=o.command_class, typ=o.command_type)))
+            fits = lambda cmd, sub: (o.command, o.subtype) == (cmd, sub) and o.command_class == cmd >> 2 and o.command_type == cmd & 3
+            nxt = set()
+            for q in pending:
+                for i, (age, must, cmd, sub) in enumerate(q):
+                    if fits(cmd, sub): nxt.add(q[i + 1:])          # skipped optional reports were not given
+                    if must: break
+            if not nxt:
+                got = dict(command=o.command, subtype=o.subtype, cls=o.command_class, typ=o.command_type)
+                if not any(pending):
+                    raise Violation("detector:spurious-report", dict(reported=got, word=[word[0], hex(word[1]), word[2]]))
+                raise Violation("detector:wrong-fields", dict(expected=[[dict(command=c, subtype=s_, obligatory=m_) for _, m_, c, s_ in q] for q in sorted(pending)], got=got))
+            pending = frozenset(nxt)
             self.cover["reported"] += 1
-        out = []
-        for age, must, cmd, sub in pending:
-            if age + 1 > MAXLAT:
-                if must: raise Violation("detector:missed-command", dict(command=cmd, subtype=sub))
-                continue
-            out.append((age + 1, must, cmd, sub))
-        return frozenset(newc), tuple(out)
+        out = set()
+        missed = None
+        for q in pending:
+            aged = []
+            for age, must, cmd, sub in q:
+                if age + 1 > MAXLAT:
+                    if must:
+                        missed = (cmd, sub)
+                        break
+                    continue
+                aged.append((age + 1, must, cmd, sub))
+            else:
+                out.add(tuple(aged))
+        if not out:
+            raise Violation("detector:missed-command", dict(command=missed[0], subtype=missed[1]))
+        return frozenset(newc), frozenset(out)
 
     def apply(self, cur, env, a):
         if a.startswith("sweep:"):
@@ -282,9 +309,11 @@ class DetectorSpec(Spec):
         for word in self.sweep_words(which):
             n += 1
             s, o1 = step(s0, vec(valid=word[0], data=word[1], ctrl=word[2]))
-            s, o2 = step(s, gap)
-            s, o3 = step(s, gap)
-            reports = [(o[ics], o[ist]) for o in (o1, o2, o3) if o[inc]]
+            obs = [o1]
+            for _ in range(MAXLAT):
+                s, o2 = step(s, gap)
+                obs.append(o2)
+            reports = [(o[ics], o[ist]) for o in obs if o[inc]]
             kind = classify(*word)
             if kind[0] in ("good", "may"):
                 ok = reports == [(kind[1], kind[2])] or (kind[0] == "may" and not reports)
@@ -292,7 +321,8 @@ class DetectorSpec(Spec):
                 ok = not reports
             if not ok:
                 # re-run the offending word on the logged cursor so that the counterexample trace contains it
-                obs = [cur.step(valid=word[0], data=word[1], ctrl=word[2]), cur.step(valid=0), cur.step(valid=0)]
+                cur.step(valid=word[0], data=word[1], ctrl=word[2])
+                for _ in range(MAXLAT): cur.step(valid=0)
                 lo, hi = word[1] & 0xFFFF, word[1] >> 16
                 detail = dict(valid=word[0], data=hex(word[1]), ctrl=word[2], expected=list(kind), reports=reports,
                               crc5_low_copy_ok=ref.parse_link_command_word(lo)[0], copies_equal=lo == hi)
@@ -346,7 +376,7 @@ def build_loop():
     return Design(d, ins, obs)
 
 
-RT_DEADLINE = 8       # cycles with ready high from the request to the report
+RT_DEADLINE = 12      # cycles with ready high from the request to the report
 
 
 class RoundTripBase(Spec):
